@@ -81,16 +81,15 @@ def judge_obs(ctx, obs, tag):
 
 def pipeline(ctx, replay_case=None):
     q = ctx.tier == "quick"
+    if replay_case is not None:
+        judge_obs(ctx, ctx.run_exec("saveio", [replay_case], "replay", shards=1), "replay")
+        return ctx.finish(LEVEL, RULE)
     ctx.tlc_mc("SaveIO_MC.tla", "SaveIO_MC_quick.cfg" if q else "SaveIO_MC_thorough.cfg", timeout=600)
     expect_counterexample(ctx)
     ctx.assumptions.append("fault model: RLIMIT_FSIZE = k makes the write crossing byte k of a regular file fail (SIGXFSZ ignored); "
                            "/dev/full refuses every byte; failures of close()/fsync() not caused by a short write are modelled "
                            "(closeFault) but not injected")
     ctx.assumptions.append("phase labels in signatures assume archive/zip buffers 4096 bytes and compress/flate holds back at most ~64 KiB")
-    if replay_case is not None:
-        judge_obs(ctx, ctx.run_exec("saveio", [replay_case], "replay", shards=1), "replay")
-        return ctx.finish(LEVEL, RULE)
-
     pre = "q-" if q else "t-"
     # every scenario of the tier's groups (SaveIO_MC.tla, AllGroups), enumerated breadth-first ...
     cases = ctx.tlc_gen("SaveIO_MC.tla", gencfg(ctx, "gen_bfs.cfg", [pre + g for g in GROUPS]), "bfs")
